@@ -104,6 +104,82 @@ def r3_append(ctx):
     return r
 
 
+def r3_join(ctx):
+    """Literal::join and reduce_into on the value kinds strings cannot produce: abstract evaluation"""
+    from rules import absint
+    from rules.absint import AEval, A, C, CF, L, I
+    r = Rule("C01.R3", "adjacent literals are joined in order; blocs are flattened forward",
+             "reduce() rewrites what the parser produced; appending in the wrong order or skipping a node changes the text",
+             floor=3)
+    ast = ctx.ast
+    funcs = absint.file_funcs(ast, PV, impl_self="ParsedValue")
+    join = funcs.get("Literal::join")
+    ri = funcs.get("ParsedValue::reduce_into")
+    if join is None or ri is None:
+        r.missing("Literal::join / ParsedValue::reduce_into")
+        return r
+    S = lambda x: ("str", x)  # noqa: E731
+    MAXV = C("MAX")
+
+    def disp(v):
+        if v[0] == "ctor" and v[1] in ("String", "Signed", "Unsigned", "Float", "Bool") and v[2]:
+            x = v[2][0]
+            return ("str", x[1] if x[0] == "str" else (("true" if x[1] else "false") if x[0] == "bool" else str(x[1])))
+        return ("str", absint.fmt(v))
+
+    def mk():
+        ev = AEval(funcs=funcs, builtins={"unwrap_at": lambda rv, a: rv[2][0] if rv[0] == "ctor" and rv[2] else rv})
+        ev.macros = absint.file_macros(ast, PV)
+        ev.display = disp
+        ev.consts = {"usize::MAX": MAXV}
+        return ev
+    kinds = {"String": C("String", S("ab"), MAXV), "Signed": C("Signed", I(-3)), "Unsigned": C("Unsigned", I(7)), "Float": C("Float", A("1.5")), "Bool": C("Bool", ("bool", True))}
+    shown = {"String": "ab", "Signed": "-3", "Unsigned": "7", "Float": "1.5", "Bool": "true"}
+    bad = []
+    for k1, v1 in kinds.items():
+        for k2, v2 in kinds.items():
+            if "Float" in (k1, k2) and k1 != "String" and k1 == "Float":
+                continue        # the float's text is an uninterpreted atom
+            if k2 == "Float":
+                continue
+            ev = mk()
+            got = ev.run_fn(join, [v1, v2])
+            after = ev.last_env.get("self") if not isinstance(got, str) else got
+            want = C("String", S(shown[k1] + shown[k2]), MAXV)
+            if after != want and not (k1 == "String" and not isinstance(after, str) and after[0] == "ctor" and after[1] == "String" and after[2][0] == S(shown[k1] + shown[k2])):
+                bad.append("%s.join(%s) gives %s, expected the text `%s`" % (k1, k2, after if isinstance(after, str) else absint.fmt(after), shown[k1] + shown[k2]))
+    if bad:
+        r.viol("R3:Literal::join", "; ".join(bad[:2]), file=PV, line=join.line)
+    else:
+        r.inst("Literal::join", "16 (self kind, other kind) pairs: the result is the text of self followed by the text of other")
+    # reduce_into on the kinds a string cannot produce
+    lit = lambda t: C("Literal", C("String", S(t), MAXV))  # noqa: E731
+    items = [C("Default"), lit("a"), C("Subkeys", C("None")), lit(""), C("Literal", C("Signed", I(3))), C("Ranges", A("R")), lit("b"),
+             C("ForeignKey", C("Set", lit("z"))), C("Plurals", A("P")), C("Bloc", L(lit("c"), C("Bloc", L(lit("d"))))), CF("Variable", key=A("k"), formatter=A("f")), lit("e")]
+    ev = mk()
+    ev.builtins["reduce"] = lambda rv, a: absint.UNIT
+    ev.builtins["into_inner"] = lambda rv, a: rv[2][0] if rv[0] == "ctor" and rv[1] == "Set" and rv[2] else rv
+    got = ev.run_fn(ri, [C("Bloc", L(*items)), L()])
+    out = ev.last_env.get("bloc") if not isinstance(got, str) else None
+    want = L(C("Literal", C("String", S("a3"), MAXV)), C("Ranges", A("R")), C("Literal", C("String", S("bz"), MAXV)), C("Plurals", A("P")), C("Literal", C("String", S("cd"), MAXV)),
+             CF("Variable", key=A("k"), formatter=A("f")), lit("e"))
+    if isinstance(got, str):
+        r.viol("R3:reduce_into#eval", "reduce_into cannot be evaluated on the mixed bloc: %s" % got, file=PV, line=ri.line)
+    elif out != want:
+        r.viol("R3:reduce_into#kinds", "a bloc of [null, `a`, subkeys, ``, 3, range, `b`, $t->`z`, plural, [`c`, [`d`]], var, `e`] reduces to %s, expected %s" % (absint.fmt(out) if out else out, absint.fmt(want)), file=PV, line=ri.line)
+    else:
+        r.inst("reduce_into", "nulls / subkeys / empty strings dropped, numbers joined as text, resolved references inlined, ranges / plurals / variables kept, nested blocs flattened forward")
+    fn = ast.fn(PV, "fmt", impl_self="Literal", impl_trait="Display")
+    if fn is not None:
+        m = find_first(fn.body, "Match")
+        badf = [show_pat(a["pat"]) for a in (m or {"arms": []})["arms"] if not re.match(r"^Display::fmt(\w+),f$", flatp(show(a["body"])))]
+        if badf or not m:
+            r.viol("R3:Literal::fmt", "Display for Literal does not print the carried value for %s" % badf, file=fn.file, line=fn.line)
+        else:
+            r.inst("Literal as Display", "prints the carried value")
+    return r
+
+
 def r4_emission(ctx):
     r = Rule("C01.R4", "both generators emit every piece, in order",
              "the generated view / Display impl is the concatenation of the collected pieces; a skipped kind, a reversed "
@@ -294,9 +370,227 @@ def r6_display(ctx):
     return r
 
 
+# ---------------------------------------------------------------------------------------------- evaluation (R0)
+
+LITS = ["Hello ", " \u00e9\u2713 ", " > ", "a}b{c=1 ", "100% \"q\" ", "-", "\n  x"]
+VARS = [("name", "{{ name }}"), ("n2", "{{n2}}"), ("count", "{{  count\t}}")]
+TAGS = [("b", "<b>", "</b>"), ("i", "< i >", "</ i >"), ("b", "<b>", "</b>")]
+
+
+def _gen_values(thorough):
+    """(source text, expected flat rendering) pairs drawn from the documented value grammar: literals, `{{ var }}`,
+    `<tag>children</tag>` nested up to depth 3 including same-name nesting; expected = the pieces in source order"""
+    import itertools
+    lit = [("lit", t) for t in LITS]
+    var = [("var", n, src) for n, src in VARS]
+    leaves = lit[:4] + var[:2]
+
+    def comp(tag, children):
+        return ("comp", tag, children)
+    inner1 = [[], [lit[0]], [var[0]], [lit[1], var[1]], [var[0], lit[2]]]
+    comps1 = [comp(TAGS[k % 3], ch) for k, ch in enumerate(inner1)]
+    comps2 = [comp(TAGS[0], [lit[0], comps1[1], lit[2]]), comp(TAGS[0], [comp(TAGS[2], [var[0]])]), comp(TAGS[1], [comps1[3], comps1[2]]),
+              comp(TAGS[0], [lit[5], comp(TAGS[0], [lit[1], comp(TAGS[1], [var[2]])]), lit[3]])]
+    atoms = lit + var + comps1 + comps2
+    seqs = [[x] for x in atoms]
+    some = lit[:3] + var[:2] + comps1[1:4] + comps2[:2]
+    seqs += [list(c) for c in itertools.product(some, repeat=2)]
+    tri = lit[:2] + var[:1] + comps1[1:3] + comps2[:1]
+    seqs += [list(c) for c in itertools.product(tri, repeat=3)]
+    if thorough:
+        seqs += [list(c) for c in itertools.product(atoms, repeat=2)]
+        seqs += [list(c) for c in itertools.product(lit[:3] + var + comps1 + comps2, repeat=3)]
+
+    def src(item):
+        if item[0] == "lit":
+            return item[1]
+        if item[0] == "var":
+            return item[2]
+        return item[1][1] + "".join(src(c) for c in item[2]) + item[1][2]
+
+    def flat(item, out):
+        if item[0] == "lit":
+            out.append(("lit", item[1]))
+        elif item[0] == "var":
+            out.append(("var", item[1]))
+        else:
+            out.append(("open", item[1][0]))
+            for c in item[2]:
+                flat(c, out)
+            out.append(("close", item[1][0]))
+
+    def merged(xs):
+        out = []
+        for x in xs:
+            if x[0] == "lit" and x[1] == "":
+                continue
+            if x[0] == "lit" and out and out[-1][0] == "lit":
+                out[-1] = ("lit", out[-1][1] + x[1])
+            else:
+                out.append(x)
+        return out
+    seen = set()
+    for sq in seqs:
+        text = "".join(src(i) for i in sq)
+        if text in seen:
+            continue
+        seen.add(text)
+        fl = []
+        for i in sq:
+            flat(i, fl)
+        yield text, merged(fl)
+
+
+def _flatten_value(v, out):
+    """flat rendering of an evaluated ParsedValue: literal text, variables, component open / close, in order"""
+    from rules import absint
+    if v[0] != "ctor":
+        raise absint.Unknown("not a parsed value: %s" % (v[:2],))
+    k = v[1]
+    fs = absint.fields_of(v)
+    if k == "Literal":
+        lit = v[2][0]
+        if lit[0] == "ctor" and lit[1] == "String":
+            out.append(("lit", lit[2][0][1]))
+        else:
+            out.append(("lit", absint.fmt(lit)))
+    elif k == "Variable":
+        nm = absint.fields_of(fs["key"]).get("name", ("str", "?"))[1]
+        out.append(("var", nm[4:] if nm.startswith("var_") else "!" + nm))
+    elif k == "Component":
+        nm = absint.fields_of(fs["key"]).get("name", ("str", "?"))[1]
+        nm = nm[5:] if nm.startswith("comp_") else "!" + nm
+        out.append(("open", nm))
+        _flatten_value(fs["inner"], out)
+        out.append(("close", nm))
+    elif k == "Bloc":
+        for x in v[2][0][1]:
+            _flatten_value(x, out)
+    elif k == "Default":
+        pass
+    else:
+        raise absint.Unknown("unexpected value kind " + k)
+
+
+def _merge_lits(xs):
+    out = []
+    for x in xs:
+        if x[0] == "lit" and x[1] == "":
+            continue
+        if x[0] == "lit" and out and out[-1][0] == "lit":
+            out[-1] = ("lit", out[-1][1] + x[1])
+        else:
+            out.append(x)
+    return out
+
+
+def _shape_ok(v, top=True):
+    """after reduce(): no bloc directly inside a bloc, no two adjacent literals, no empty string literal inside a bloc"""
+    from rules import absint
+    if v[0] != "ctor":
+        return True
+    if v[1] == "Bloc":
+        items = v[2][0][1]
+        prev_lit = False
+        for x in items:
+            if x[0] == "ctor" and x[1] == "Bloc":
+                return False
+            is_lit = x[0] == "ctor" and x[1] == "Literal"
+            if is_lit and prev_lit:
+                return False
+            if is_lit and x[2][0][0] == "ctor" and x[2][0][1] == "String" and x[2][0][2][0] == ("str", ""):
+                return False
+            prev_lit = is_lit
+            if not _shape_ok(x, False):
+                return False
+        return True
+    if v[1] == "Component":
+        return _shape_ok(absint.fields_of(v)["inner"], False)
+    return True
+
+
+def r0_parse(ctx):
+    """abstract evaluation (rules/absint.py) of ParsedValue::new (with find_component / find_variable / find_closing_tag /
+    find_opening_tag ..) and of reduce() on strings generated from the value grammar; the expected rendering is the
+    sequence of pieces the string was generated from"""
+    from rules import absint
+    from rules.absint import AEval, A, C, CF
+    r = Rule("C01.R0", "strings of the value grammar parse (and reduce) to exactly their pieces, in order",
+             "`literal text verbatim and in order, every {{ var }} replaced by the supplied value, every <tag>...</tag> replaced by "
+             "the supplied component applied to its rendered children; nothing is dropped, duplicated, reordered`", floor=2)
+    ast = ctx.ast
+    funcs = absint.file_funcs(ast, PV, impl_self="ParsedValue")
+    new = ast.fn(PV, "new", impl_self="ParsedValue")
+    red = ast.fn(PV, "reduce", impl_self="ParsedValue")
+    if new is None or red is None:
+        r.missing("ParsedValue::new / reduce")
+        return r, False, "anchor missing"
+    macros = absint.file_macros(ast, PV)
+    S = lambda x: ("str", x)  # noqa: E731
+
+    def mk():
+        ev = AEval(funcs=funcs, builtins={"unwrap_at": lambda rv, a: rv[2][0] if rv[0] == "ctor" and rv[2] else rv})
+        ev.macros = macros
+        ev.path_builtins = {"Key::new": lambda a: C("Some", CF("Key", name=a[0])) if a[0][0] == "str" and re.match(r"^[A-Za-z_][A-Za-z0-9_]*$", a[0][1]) else C("None"),
+                            "Formatter::from_name_and_args": lambda a: C("Ok", C("Some", C("FormatterNone")))}
+        return ev
+    n = 0
+    bad_parse = bad_reduce = None
+    for text, want in _gen_values(ctx.tier == "thorough"):
+        got = mk().run_fn(new, [S(text), A("key_path"), A("locale"), A("fkp")])
+        if isinstance(got, str):
+            return r, False, "%s on %r" % (got, text)
+        n += 1
+        try:
+            if not (got[0] == "ctor" and got[1] == "Ok"):
+                raise absint.Unknown("result " + absint.fmt(got)[:80])
+            fl = []
+            _flatten_value(got[2][0], fl)
+            have = _merge_lits(fl)
+        except absint.Unknown as u:
+            have = "<%s>" % u
+        if have != want and bad_parse is None:
+            bad_parse = "`%s` parses to %s, the text says %s" % (text, have, want)
+        if have == want:
+            ev = mk()
+            rr = ev.run_fn(red, [got[2][0]])
+            if isinstance(rr, str):
+                return r, False, "%s in reduce() of %r" % (rr, text)
+            after = ev.last_env.get("self")
+            try:
+                fl2 = []
+                _flatten_value(after, fl2)
+                have2 = _merge_lits(fl2)
+            except absint.Unknown as u:
+                have2 = "<%s>" % u
+            if have2 != want and bad_reduce is None:
+                bad_reduce = "`%s`: after reduce() the pieces are %s, before %s" % (text, have2, want)
+            elif not _shape_ok(after) and bad_reduce is None:
+                bad_reduce = "`%s`: reduce() leaves nested blocs / adjacent literals / empty strings: %s" % (text, absint.fmt(after)[:160])
+    if bad_parse:
+        r.viol("R0:ParsedValue::new#pieces", bad_parse, file=PV, line=new.line)
+    else:
+        r.inst("ParsedValue::new", "%d generated strings (literals incl. multibyte text and lone `>`/braces, 3 variable spellings, components with whitespace in tags, nesting to depth 3 incl. same-name): pieces in order, nothing lost" % n)
+    if bad_reduce:
+        r.viol("R0:ParsedValue::reduce#pieces", bad_reduce, file=PV, line=red.line)
+    elif not bad_parse:
+        r.inst("ParsedValue::reduce", "same strings: reduce() keeps the rendering, joins adjacent literals, flattens nested blocs, drops empty strings")
+    return r, True, None
+
+
 def run(ctx):
     from rules import offsets
-    return [offsets.rule_partition(ctx), r3_append(ctx), r4_emission(ctx), r5_pairing(ctx), r6_display(ctx)]
+    import os
+    r0, ok, why = r0_parse(ctx)
+    if not ok and not r0.violations:
+        r0.inst("evaluation not available", "the parser could not be evaluated abstractly (%s): the tiling analysis (R1/R2) and the structural reducer rule (R3) decide alone" % str(why)[:160])
+        r0.floor = 1
+    rules = [r0, offsets.rule_partition(ctx)]
+    if not ok or os.environ.get("VERIF_FORCE_FALLBACK"):
+        rules.append(r3_append(ctx))
+    else:
+        rules.append(r3_join(ctx))
+    return rules + [r4_emission(ctx), r5_pairing(ctx), r6_display(ctx)]
 
 
 MANIFEST_ENTRY = {
